@@ -49,6 +49,24 @@ def gen(rng, budget, tier):
             yield f"c08.cat {hexs(rng.choice(GLOBS).encode())} {rules_arg(rng)}" + (f" {hexs(head)}" if head else "")
         else:
             yield f"c08.perm {hexs(rng.choice(USERS))} {hexs(rng.choice(PATHS).encode())} {rules_arg(rng)}"
+    yield from _gen_unanchored(rng, max(150, budget // 4))
+
+
+# added after seeded round 6: rules that are not anchored at the start of the path (a literal somewhere in the middle or at the
+# end decides), alone and mixed with anchored ones
+UNANCHORED = ["\\.log$", "!\\.txt$", "!/secret/", "logs/", "readfiles:!secret", "alpha$", "!s\\.txt$", "readfiles:/sub/", "!x[[:digit:]]$",
+              "[[:alpha:]]+\\.log$", "!link", "(a|b)\\.log$"]
+
+
+def _gen_unanchored(rng, n):
+    for _ in range(n):
+        k = rng.choice([1, 2, 2, 3, 4])
+        rs = [rng.choice(UNANCHORED if rng.random() < 0.7 else RULES) for _ in range(k)]
+        arg = ",".join(hexs(r.encode()) for r in rs)
+        if rng.random() < 0.15:
+            yield f"c08.cat {hexs(rng.choice(GLOBS).encode())} {arg}"
+        else:
+            yield f"c08.perm {hexs(b'paul')} {hexs(rng.choice(PATHS).encode())} {arg}"
 
 
 def model_case(case, impl):
